@@ -107,6 +107,28 @@ class MethodMixin:
                                        z3.ForAll([k], z3.Implies(z3.And(0 <= k, k < alen(pa)), aat(sa, off + k) == aat(pa, k)))))
             f = z3.PrefixOf if name == "startswith" else z3.SuffixOf
             return SV(BOOL, f(S.to_native(p), S.to_native(s)))
+        if name in ("find", "rfind") and len(args) >= 1 and isinstance(args[0], str) and len(args[0]) == 1 \
+                and (isinstance(s, SV) and s.ty == ASTR):
+            # array encoding: first / last occurrence of one character, axiomatised exactly
+            c = ord(args[0])
+            u = s.t
+            r = z3.Int(ctx.fresh_name(name))
+            k = z3.Int(ctx.fresh_name("k"))
+            lo = z3.IntVal(0)
+            if len(args) > 1:
+                if name == "rfind":
+                    raise Unsupported("rfind with start")
+                st = ctx.term(args[1], INT)
+                lo = z3.If(st < 0, z3.If(st + alen(u) < 0, 0, st + alen(u)), st)
+            none = z3.ForAll([k], z3.Implies(z3.And(lo <= k, k < alen(u)), aat(u, k) != c))
+            if name == "find":
+                first = z3.And(lo <= r, r < alen(u), aat(u, r) == c,
+                               z3.ForAll([k], z3.Implies(z3.And(lo <= k, k < r), aat(u, k) != c)))
+            else:
+                first = z3.And(0 <= r, r < alen(u), aat(u, r) == c,
+                               z3.ForAll([k], z3.Implies(z3.And(r < k, k < alen(u)), aat(u, k) != c)))
+            ctx.assume(z3.Or(z3.And(r == -1, none), first))
+            return SV(INT, r)
         if name == "find" and len(args) >= 1:
             t, p = S.to_native(s), S.to_native(args[0])
             start = ctx.term(args[1], INT) if len(args) > 1 else z3.IntVal(0)
@@ -116,7 +138,11 @@ class MethodMixin:
         if name == "count" and len(args) == 1:
             c = args[0]
             if isinstance(c, str) and len(c) == 1 and isinstance(s, SV) and s.ty == ASTR:
-                return SV(INT, _acount(s.t, z3.IntVal(ord(c)), alen(s.t)))
+                # str.count of one character == the spec function count_char(s, c, len(s))
+                f = self.engine.spec_funcs.get("count_char")
+                if f is None:
+                    raise Unsupported("spec function count_char missing")
+                return self.call_closure(f, [s, c, SV(INT, alen(s.t))], {})
             raise Unsupported("str.count in this encoding")
         if name == "replace" and len(args) == 2 and S.mode_of(s, *args) != "array":
             return SV(STR, z3.Replace(S.to_native(s), S.to_native(args[0]), S.to_native(args[1]))) if False else \
